@@ -35,10 +35,14 @@ func blockFails(b *ssa.BasicBlock, depth int) bool {
 
 // C18 — composite keys: lossless, collision-free and prefix-exact.
 func checkC18(p *Prog, r *Report) {
+	checkNoDroppedErrors(p, r, "C18", "types/compkey, x/aol, x/aol/types", func(fn *ssa.Function) bool { return inExactPkgs(fn, "types/compkey", "x/aol", "x/aol/types") })
+	checkNoNilWrap(p, r, "C18", "types/compkey, x/aol/types", func(fn *ssa.Function) bool { return inExactPkgs(fn, "types/compkey", "x/aol/types") })
 	r.Explain = "Decided statically: D1 encoder — every narrowing of a length to one byte is dominated by length <= 255 (error return otherwise); per value exactly one length byte is stored at the running index and the whole value is copied right after it; the running index advances by 1 + bytes copied; the buffer size is the sum of (1 + len) over the same values; Encode/PartialEncode feed it ByteSlices() / its first numValues elements under numValues <= len. D2 decoder — in linear normal form the only accept condition is idx+1+n <= len(bz) with n the byte at idx, the value copied is bz[idx+1 : idx+1+n] into a buffer of length n, the next index is idx+1+copied, the loop continues while idx < len(bz), every value is appended. D3 per typed key (4) — component count, component order and field binding agree between ByteSlices/FromByteSlices and Strings/FromStrings; address components are format-checked on decode; fixed-width components are length-checked before big-endian decoding. D4 round trip / injectivity / prefix-exactness of [len][value]... with one-byte lengths then follow on paper from D1–D3 (standard argument for length-prefixed encodings: by induction on the component index, equal encodings force equal first length bytes, hence equal first components, hence equal remainders; a proper prefix of an encoding ending inside a component cannot be decoded because the accept condition fails). D5 the genesis separator is a one-character constant outside the topic-name language, the bech32 alphabet/HRP and the decimal digits, and FromStrings checks the component count."
 	r.NotDec = []string{"byte-level behaviour beyond the stated shape (nothing is executed)", "copy / strings.Split / strconv semantics"}
 	r.Trusted = []string{"Go built-ins copy/append/len, strings.Split, strconv, cosmos-sdk address parsing"}
 	kp := func(rule, rest string) string { return rule + ":C18:" + rest }
+	// the string forms of the genesis keys are parsed by GenesisState.Validate: its verdict is what ValidateGenesis returns
+	checkValidateGenesisPropagates(p, r, kp, []string{"x/aol"})
 
 	sp := p.SSAPkg(Rel(compkeyPkg))
 	if sp == nil {
